@@ -540,6 +540,7 @@ let run_osrm () =
     | "fewer_dist" -> let k = 1 + n / 2 in table durs (take k dists)
     | "fewer_dur" -> let k = 1 + n / 2 in table (take k durs) dists
     | "nodistances" -> XStatus (true, Some (JObj [ (O, JArr [ JArr durs ]) ]))
+    | "nulldur_scalar_dist" -> XStatus (true, Some (JObj [ (O, JArr [ JNull ]); (S O, JNum (z_of_int 50)) ]))   (* {"durations":[null],"distances":5}: tenths *)
     | "more" -> table (durs @ [ num 10 ]) (dists @ [ num 10 ])
     | _ -> table durs dists in
   match osrm_rows x asked maxt with
